@@ -1262,7 +1262,9 @@ def rt_known_class(text, keep_math, enclose_urls):
             for m in rx.finditer(text):
                 if any(c in m.group(1) for c in "%~&{}\\$"):
                     return "K6"
-    if k12_class(text):
+    if k12_class(text) and not pristine_roundtrips(text):
+        # K12, as narrowly as the input tells: a text of the class that PRISTINE pylatexenc (no repository code) does not give
+        # back either.  `a'b` or `- -` are of the class by their characters but round-trip: a change that breaks them is reported.
         return "K12"
     return None
 
